@@ -1654,7 +1654,7 @@ func (fx *FuncCtx) collectCallMods(ms *modSet, call *ast.CallExpr) {
 	}
 	if callee.Pkg() != nil && !strings.HasPrefix(callee.Pkg().Path(), "gonum.org/v1/gonum") {
 		// library models: sort.* writes its argument
-		if callee.Pkg().Path() == "sort" && len(call.Args) > 0 {
+		if (callee.Pkg().Path() == "sort" || callee.Pkg().Path() == "slices") && len(call.Args) > 0 {
 			if t := fx.info.Types[call.Args[0]].Type; t != nil {
 				if sl, ok := t.Underlying().(*types.Slice); ok {
 					fx.noteMemWrite(ms, sl.Elem(), call.Args[0])
